@@ -1281,4 +1281,73 @@ theorem cost_octa (t : Vec3 ℝ) (q : Quat ℝ) (hq : q.x * q.x + q.y * q.y + q.
   linear_combination (16 * (q.x * q.x + q.y * q.y + q.z * q.z) - 288 / 25) * hq
 
 
+/-! ## helpers of pass 7: RPE only sees the estimate as a list of transformations -/
+
+theorem rpeErr_congr_right (eps atol : ℝ) (et : EType) (x : SE3 ℝ) {y y' : SE3 ℝ} (h : Spline.SE3Equiv y y') :
+    rpeErr eps atol et x y = rpeErr eps atol et x y' := by
+  unfold rpeErr
+  rw [SE3matrix_congr (Spline.SE3Equiv.mul_left _ h)]
+
+theorem pairId_congr_t (pm : PairMode) (dN : Nat) (delta rtol : ℝ) (all : Bool) (ps ps' : List (SE3 ℝ))
+    (h : ps.map (·.t) = ps'.map (·.t)) : pairId pm dN delta rtol all ps = pairId pm dN delta rtol all ps' := by
+  unfold pairId
+  cases pm with
+  | frame =>
+    have := congrArg List.length h
+    simp only [List.length_map] at this
+    simp only [this]
+  | distance => simp only [h]
+
+theorem zipWith_relPoses_congr (eps atol : ℝ) (et : EType) (ep : List (SE3 ℝ)) (f f' : SE3 ℝ → SE3 ℝ)
+    (hf : ∀ e ∈ ep, Spline.SE3Equiv (f' e) (f e)) (pairs : List (Nat × Nat)) (L : List (SE3 ℝ)) :
+    List.zipWith (rpeErr eps atol et) L (relPoses (ep.map f') pairs)
+      = List.zipWith (rpeErr eps atol et) L (relPoses (ep.map f) pairs) := by
+  induction pairs generalizing L with
+  | nil => simp [relPoses]
+  | cons st rest ih =>
+    unfold relPoses at ih ⊢
+    simp only [List.getElem?_map] at ih
+    simp only [List.filterMap_cons, List.getElem?_map]
+    cases h1 : ep[st.1]? with
+    | none => simp only [Option.map_none]; exact ih L
+    | some a =>
+      cases h2 : ep[st.2]? with
+      | none => simp only [Option.map_some, Option.map_none]; exact ih L
+      | some b =>
+        simp only [Option.map_some]
+        cases L with
+        | nil => simp
+        | cons x L' =>
+          simp only [List.zipWith_cons_cons]
+          have ha := List.mem_of_getElem? h1
+          have hb := List.mem_of_getElem? h2
+          rw [ih L', rpeErr_congr_right eps atol et x
+            ((Spline.SE3Equiv.mul_right (SE3Inv_congr (hf a ha)) _).trans (Spline.SE3Equiv.mul_left _ (hf b hb)))]
+
+/-- the tail of `rpe` (pairing, relative poses, errors) only depends on the aligned estimate as a list of transformations -/
+theorem rpeTail_congr (eps atol : ℝ) (et : EType) (pm : PairMode) (dN : Nat) (delta rtol : ℝ) (all rpair : Bool)
+    (Rr ep : List (SE3 ℝ)) (f f' : SE3 ℝ → SE3 ℝ) (hf : ∀ e ∈ ep, Spline.SE3Equiv (f' e) (f e)) :
+    rpeTail eps atol et pm dN delta rtol all rpair Rr (ep.map f')
+      = rpeTail eps atol et pm dN delta rtol all rpair Rr (ep.map f) := by
+  unfold rpeTail
+  have ht : (ep.map f').map (·.t) = (ep.map f).map (·.t) := by
+    rw [List.map_map, List.map_map]
+    exact List.map_congr_left (fun e he => (hf e he).1)
+  have hp : pairId pm dN delta rtol all (if rpair = true then Rr else ep.map f')
+      = pairId pm dN delta rtol all (if rpair = true then Rr else ep.map f) := by
+    cases rpair with
+    | true => simp only [if_true]
+    | false => simp only [Bool.false_eq_true, if_false]; exact pairId_congr_t pm dN delta rtol all _ _ ht
+  simp only [hp, zipWith_relPoses_congr eps atol et ep f f' hf]
+
+theorem Sim3Equiv_mul_right {X Y : Sim3 ℝ} (h : Sim3Equiv X Y) (Z : Sim3 ℝ) : Sim3Equiv (Sim3Mul X Z) (Sim3Mul Y Z) := by
+  obtain ⟨ht, hs, hq⟩ := h
+  unfold Sim3Mul
+  refine ⟨?_, by simp only [hs], ?_⟩
+  · rcases hq with hq | hq <;> simp only [ht, hs, hq, Quat.neg_act]
+  · rcases hq with hq | hq
+    · left; simp only [hq]
+    · right; simp only [hq]; exact Spline.Quat.neg_mul' _ _
+
+
 end PP.Traj
